@@ -507,7 +507,11 @@ class Doist(tyming.Tymist):
             doers is list of doers to add as extension.
 
         """
-        doers = [doer for doer in doers if doer not in self.doers] # ensure unique
+        udoers = []  # unique new doers in order of first appearance
+        for doer in doers:
+            if doer not in self.doers and doer not in udoers:  # ensure unique
+                udoers.append(doer)
+        doers = udoers
         deeds = self.enter(doers=doers)  # provide fresh deeds for new doers
         self.doers.extend(doers)
         self.deeds.extend(deeds)
@@ -1390,7 +1394,11 @@ class DoDoer(Doer):
             doers is list of doers to add as extension.
 
         """
-        doers = [doer for doer in doers if doer not in self.doers] # ensure unique
+        udoers = []  # unique new doers in order of first appearance
+        for doer in doers:
+            if doer not in self.doers and doer not in udoers:  # ensure unique
+                udoers.append(doer)
+        doers = udoers
         deeds = self.enter(doers=doers)  # provide fresh deeds for new doers
         self.doers.extend(doers)
         self.deeds.extend(deeds)
